@@ -25,6 +25,11 @@ FLUSH = "std::io::Write::flush"
 OPEN = "std::fs::OpenOptions::open"
 
 
+def append_fn(p):
+    """the appender's append(), with private helpers that contain the encode/flush/policy calls inlined"""
+    return p.fn_inl(APPEND, wanted=[ENCODE, FLUSH, POLICY_PROCESS, POLICY_IS_PRE, "lock_api::mutex::Mutex::<R, T>::lock"])
+
+
 def roles(p):
     if getattr(p, "_rolling", None) is not None:
         return p._rolling
@@ -71,7 +76,7 @@ def roles(p):
 def branch_sites(p):
     """Call sites of append split by the is_pre_process branch."""
     ro = roles(p)
-    f = p.fn(APPEND)
+    f = append_fn(p)
     ipp = f.call1(POLICY_IS_PRE, "Policy::is_pre_process")
     sw = None
     for b in f.blocks:
@@ -117,7 +122,7 @@ def len_reads(p, f):
 def rule_lock_span(ctx, p, cfg, rid="R1"):
     with ctx.rule(rid, "writer lock covers the whole append", cfg) as r:
         ro = roles(p)
-        f = p.fn(APPEND)
+        f = append_fn(p)
         locks = q.lock_sites(f)
         r.require(len(locks) == 1, "single-lock", fn=f, detail="exactly one lock acquisition in append (found %d)" % len(locks))
         if len(locks) != 1:
